@@ -950,6 +950,146 @@ def make_machine(ctl=None, fuel=6_000_000):          # noqa: F811  (cmd stubs on
     return M
 
 
+# ---------------------------------------------------------------------------- native confirmation of engine findings
+
+def _file_lines(files):
+    return {k: _norm_lines(v) for k, v in (files or {}).items()}
+
+
+def c14_confirm(f, tier):
+    locus = f.get('locus', '')
+    if '>' not in locus:
+        return None, 'a change of the model without a changed output has no native observable'
+    g1, g2 = locus.split('>')
+    text = (f.get('cex') or {}).get('text')
+    if not text:
+        return None, 'no witness text'
+    # three native runs each way: the outputs are compared as line multisets, so map order does not matter
+    seen_alone, seen_after = [], []
+    for _ in range(3):
+        r = symgo.native_run([text], orders=[[g1, g2], [g2]], fmt=False, visit=False, content=True)[0]
+        gens = r.get('gens') or []
+        if len(gens) < 2 or gens[0].get('panic') or gens[1].get('panic'):
+            return None, 'native run did not complete: %s' % [g.get('panic') for g in gens]
+        seen_after.append(_file_lines((gens[0].get('files') or {}).get(g2)))
+        seen_alone.append(_file_lines((gens[1].get('files') or {}).get(g2)))
+    if any(a in seen_alone for a in seen_after):
+        return False, 'natively %s writes the same files whether or not %s ran first' % (g2, g1)
+    return True, 'natively the files of %s differ when %s ran first' % (g2, g1)
+
+
+def c10_confirm(f, tier):
+    cex = f.get('cex') or {}
+    sym = f.get('sig', '').split('|')[-1]
+    text = cex.get('text')
+    if not text or sym.startswith('file-mode:'):
+        return None, 'no native statement'
+    if sym.startswith('layout-dependent'):
+        lay = cex.get('relayout')
+        if not lay:
+            return None, 'no re-layout witness'
+        r = symgo.native_run([cex.get('relayout_base') or text, lay], orders=[], fmt=True, visit=False)
+        if any(x.get('format_panic') or x.get('format_err') for x in r):
+            return None, 'native formatter fails on the witness'
+        if r[0].get('format') == r[1].get('format'):
+            return False, 'natively both layouts format to the same text'
+        return True, 'natively the two layouts format differently'
+    if sym.startswith('not-idempotent'):
+        once = cex.get('once')
+        if sym.endswith('same-process') or not once:
+            r = symgo.native_run([text], orders=[], fmt=True, visit=False)[0]
+            if r.get('format_panic') or r.get('format_err') or r.get('format2_err'):
+                return None, 'native formatter fails on the witness'
+            if r.get('format') == r.get('format2'):
+                return False, 'natively format(format(x)) == format(x) (two calls in one process)'
+            return True, 'natively the second formatting changes the text again'
+        r = symgo.native_run([once], orders=[], fmt=True, visit=False)[0]
+        if r.get('format_panic') or r.get('format_err'):
+            return None, 'native formatter fails on the witness'
+        if r.get('format') == once:
+            return False, 'natively the formatted text is a fixed point'
+        return True, 'natively formatting the formatted text changes it again'
+    return None, 'no native statement'
+
+
+def c16_confirm(f, tier):
+    """the real binary, in a scratch directory"""
+    import subprocess, tempfile, shutil
+    cex = f.get('cex') or {}
+    text = cex.get('text')
+    locus, sym = f.get('locus', ''), f.get('sig', '').split('|')[-1]
+    if text is None:
+        return None, 'no witness text'
+    binary = build.build_binary()
+    lib = symgo.native_run([text], orders=[], fmt=True, visit=False)[0]
+    if lib.get('format_panic'):
+        return None, 'native formatter panics on the witness'
+    d = tempfile.mkdtemp(prefix='zzc16_', dir=build.cache_dir())
+    try:
+        if locus == 'cmd:format-f' and sym in ('file-differs', 'error-touches-file', 'error-exit-zero', 'exit-nonzero'):
+            fn = os.path.join(d, 'in.dsl')
+            open(fn, 'w').write(text)
+            r = subprocess.run([binary, 'format', '-f', fn], capture_output=True, text=True, timeout=60)
+            got = open(fn).read()
+            if lib.get('format_err'):
+                bad = (r.returncode == 0) or (got != text)
+                return bad, 'real binary on a file with a syntax error: exit %d, file %s' % (r.returncode, 'changed' if got != text else 'unchanged')
+            bad = got != lib.get('format') or r.returncode != 0
+            return bad, 'real binary: exit %d, file %s the library result' % (r.returncode, 'differs from' if got != lib.get('format') else 'equals')
+        if locus == 'cmd:format-d' and sym in ('stdout-differs', 'exit-nonzero', 'error-exit-zero', 'writes-file'):
+            if not text.strip():
+                return None, 'empty -d argument'
+            r = subprocess.run([binary, 'format', '-d', text], capture_output=True, text=True, timeout=60, cwd=d)
+            if lib.get('format_err'):
+                return (r.returncode == 0), 'real binary on a syntax error: exit %d' % r.returncode
+            bad = r.stdout not in (lib.get('format'), (lib.get('format') or '') + '\n') or r.returncode != 0 or bool(os.listdir(d))
+            return bad, 'real binary: exit %d, stdout %s the library result' % (r.returncode, 'equals' if not bad else 'differs from')
+        m = re.search(r'compile -([a-z+]+)\[(own|shared),(longer|same|stale|none)\]', f.get('detail') or '')
+        if locus == 'cmd:compile' and m:
+            sub, layout, pre = m.group(1).split('+'), m.group(2), m.group(3)
+            flag = {'go': '-g', 'rust': '-r', 'java': '-j', 'python': '-p', 'cpp': '-c', 'lua': '-l'}
+            nat = symgo.native_run([text], orders=[[g] for g in sub], fmt=False, visit=False, content=True)[0]
+            gens = nat.get('gens') or []
+            if len(gens) != len(sub) or any(g.get('panic') or g.get('err') for g in gens):
+                return None, 'native generators do not complete on the witness'
+            want = {}
+            for g, gr in zip(sub, gens):
+                for k, v in ((gr.get('files') or {}).get(g) or {}).items():
+                    want[os.path.join('shared' if layout == 'shared' else g, k)] = v.encode('utf-8', 'surrogateescape') if isinstance(v, str) else v
+            fn = os.path.join(d, 'in.dsl')
+            open(fn, 'w').write(text)
+            time.sleep(0.02)
+            for rel, v in want.items():
+                if pre == 'none':
+                    continue
+                q = os.path.join(d, 'out', rel)
+                os.makedirs(os.path.dirname(q), exist_ok=True)
+                open(q, 'wb').write(v if pre == 'same' else b'#' * (len(v) + (17 if pre == 'longer' else 0)))
+            args = [binary, '-f', fn]
+            for g in sub:
+                args += [flag[g], os.path.join(d, 'out', 'shared' if layout == 'shared' else g)]
+            r = subprocess.run(args, capture_output=True, text=True, timeout=60)
+            got = {}
+            for root, _, names in os.walk(os.path.join(d, 'out')):
+                for n in names:
+                    q = os.path.join(root, n)
+                    got[os.path.relpath(q, os.path.join(d, 'out'))] = open(q, 'rb').read()
+            if r.returncode != 0:
+                return None, 'real binary exits %d' % r.returncode
+            if set(got) != set(want):
+                return True, 'real binary: file set differs (extra %s, missing %s)' % (sorted(set(got) - set(want))[:2], sorted(set(want) - set(got))[:2])
+            bad = [k for k in want if _norm_lines(got[k]) != _norm_lines(want[k])]
+            if bad:
+                return True, 'real binary: %s differs from the generator output' % bad[:2]
+            return False, 'real binary writes exactly the generators\' files for this case'
+    finally:
+        shutil.rmtree(d, ignore_errors=True)
+    return None, 'no native statement for this entry point'
+
+
+NATIVE_CONFIRM = {'C14': c14_confirm, 'C10': c10_confirm, 'C16': c16_confirm}
+
+
 # ---------------------------------------------------------------------------- driver
 
 TEXT_FUNCS = {'C11': c11_text, 'C12': c12_text, 'C13': c13_text, 'C14': c14_text}
@@ -1076,6 +1216,21 @@ def finish(prop, tier, seed, t0, fam, results, update_known, extra_cov=None):
             else:
                 unconfirmed.append((s, fs[0]['detail']))
         new = keep
+    if prop in NATIVE_CONFIRM and new:
+        # replay before reporting: where the real code can show the same thing natively it has to; a finding the native run
+        # contradicts was produced by our engine or stubs and is never an alarm (None = no native statement possible: kept)
+        keep = []
+        for s, fs in new[:400]:
+            try:
+                ok, what = NATIVE_CONFIRM[prop](fs[0], tier)
+            except Exception as e:
+                ok, what = None, 'native confirmation failed to run: %s' % str(e)[:100]
+            fs[0]['native'] = {'confirmed': ok, 'what': what}
+            if ok is False:
+                unconfirmed.append((s, '%s -- native run: %s' % (fs[0]['detail'][:120], what)))
+            else:
+                keep.append((s, fs))
+        new = keep + new[400:]
     for s, fs in bysig.items():
         if s in known:
             print('KNOWN-FINDING: property=%s %s :: %s' % (prop, s, (fs[0]['detail'] or '')[:140]))
